@@ -3,12 +3,14 @@ from common import cN, cZ, cnat, cbool, clist, copt, cpair
 
 ATTRS = sorted(['B', '_x', 'a', 'a_', 'aa', 'b', 'c', 'self', 'up', 'w', 'x', 'kernel', 'bias'])
 DKEYS = sorted(['k1', 'k2', 'z'])
-ALLK = sorted(set(ATTRS + DKEYS))
+EXTRA_KEYS = ['sub']
+ALLK = sorted(set(ATTRS + DKEYS + EXTRA_KEYS))
 KCODE = {k: 1000 + i for i, k in enumerate(ALLK)}
 NODETY = {'Box': 1, 'Box2': 2}
 VARTY = {'Variable': 10, 'Param': 11, 'BatchStat': 12, 'Cache': 13, 'Intermediate': 14, 'Custom': 15}
 VMRO = {'Param': [11, 10], 'BatchStat': [12, 10], 'Cache': [13, 10], 'Intermediate': [14, 10], 'Custom': [15, 11, 10]}
-KIND = {'list': 1, 'tuple': 2, 'dict': 3}
+KIND = {'list': 1, 'tuple': 2, 'dict': 3, 'nt': 4}
+NT_FIELDS = ['x', 'w', 'a']     # declaration order of the NamedTuple used as a generic JAX pytree node (not alphabetical)
 
 
 def ckey(k):
@@ -141,8 +143,13 @@ def gen_graph(rng, nmax, share_containers=False):
       return ['arr', rng.randint(0, 90)]
     if depth <= 0:
       return ['ref', rng.randrange(n)]
-    kind = rng.choice(['list', 'tuple', 'dict'])
+    kind = rng.choice(['list', 'tuple', 'dict', 'nt'])
+    if kind == 'nt':
+      return ['tree', kind, [[k, gen_val(depth - 1)] for k in sorted(NT_FIELDS)]]
     m = rng.randint(0, 3)
+    if kind == 'list' and rng.random() < 0.12:
+      # a long list: positions 10, 11 sort before 2 as strings
+      return ['tree', kind, [[j, rng.choice([['ref', rng.randrange(n)], ['arr', rng.randint(0, 90)], ['static', rng.randint(0, 9)]])] for j in range(rng.randint(11, 13))]]
     if kind == 'dict':
       ks = sorted(rng.sample(DKEYS, min(m, len(DKEYS))))
       return ['tree', kind, [[k, gen_val(depth - 1)] for k in ks]]
